@@ -9,6 +9,10 @@
 //	ev:   a<j>     a vss.Signature for request id j arrives from a peer (tag = position of the event)
 //	      r<h>.<j> pipeline instance h registers for request id j (fresh context + reply channel per instance)
 //	      c<h>     instance h completes / is cancelled: its recovery stage is gone, then its context is cancelled
+//	      f<h>     the recovery stage of instance h has returned but handleQuery has not yet cancelled the context
+//	               (the window in which a further share for h makes the loop WAIT until the cancel). The cancel
+//	               follows as soon as the loop is seen waiting (or at c<h> / the end); the share is then dropped,
+//	               so for what is delivered f<h> is the same as c<h> - which is how the model reads it.
 //	      x        a peer message that is not a vss.Signature
 //
 // Output:      h<h>=<tag,tag,…>;…   what each instance received on its reply channel, in order
@@ -24,7 +28,10 @@ import (
 	"strconv"
 	"strings"
 	"sync"
+	"sync/atomic"
 	"time"
+
+	"github.com/golang/protobuf/proto"
 
 	"github.com/DOSNetwork/core/dosnode"
 	"github.com/DOSNetwork/core/log"
@@ -72,6 +79,8 @@ func parse(line string) (rids [][]byte, evs []ev) {
 			evs = append(evs, ev{kind: 'r', h: h.Atoi(p[0]), j: h.Atoi(p[1])})
 		case 'c':
 			evs = append(evs, ev{kind: 'c', h: h.Atoi(t[1:])})
+		case 'f':
+			evs = append(evs, ev{kind: 'f', h: h.Atoi(t[1:])})
 		case 'x':
 			evs = append(evs, ev{kind: 'x'})
 		default:
@@ -109,6 +118,9 @@ type inst struct {
 var quiet = doubles.NewLogger()
 
 // run drives the real queryLoop through the schedule.
+// windowHits counts how often the loop was seen waiting inside the completion window (evidence only).
+var windowHits int32
+
 func run(rids [][]byte, evs []ev) map[int]*inst {
 	id := []byte("verif-c13-node-00001")
 	pd := doubles.NewP2P(id, 0)
@@ -132,17 +144,40 @@ func run(rids [][]byte, evs []ev) map[int]*inst {
 		}
 		in.gone = true
 	}
+	var finished []*inst // stage gone, context not yet cancelled
+	// input hands one input to the loop. If the loop does not take it within 50 ms while some instance is
+	// inside its completion window, the loop is waiting in a send to that instance: handleQuery's cancel
+	// comes now, the loop drops the share and goes on.
+	input := func(op func()) {
+		done := make(chan struct{})
+		go func() { op(); close(done) }()
+		if len(finished) == 0 {
+			<-done
+			return
+		}
+		select {
+		case <-done:
+		case <-time.After(50 * time.Millisecond):
+			atomic.AddInt32(&windowHits, 1)
+			for _, in := range finished {
+				in.cancel()
+			}
+			finished = nil
+			<-done
+		}
+	}
+	deliver := func(m proto.Message) { input(func() { pd.Deliver([]byte("peer"), m) }) }
 	for i, e := range evs {
 		switch e.kind {
 		case 'a':
-			pd.Deliver([]byte("peer"), &vss.Signature{RequestId: rids[e.j], Nonce: []byte(strconv.Itoa(i)), Content: []byte{1}, Signature: []byte{2}})
+			deliver(&vss.Signature{RequestId: rids[e.j], Nonce: []byte(strconv.Itoa(i)), Content: []byte{1}, Signature: []byte{2}})
 		case 'x':
-			pd.Deliver([]byte("peer"), &vss.PublicKey{})
+			deliver(&vss.PublicKey{})
 		case 'r':
 			in := get(e.h)
 			in.rids[e.j] = true
 			in.regs++
-			node.VerifRegisterChan(in.ctx, string(rids[e.j]), 2, in.reply)
+			input(func() { node.VerifRegisterChan(in.ctx, string(rids[e.j]), 2, in.reply) })
 			if !in.recv && !in.gone { // the recovery stage starts reading its input
 				in.recv = true
 				in.wg.Add(1)
@@ -165,17 +200,26 @@ func run(rids [][]byte, evs []ev) map[int]*inst {
 			in := get(e.h)
 			// a cancellation is not an input of the loop: make sure the loop has finished the previous
 			// event (e.g. the flush of a registration) before it happens. The sync message is one the loop ignores.
-			pd.Deliver([]byte("peer"), &vss.PublicKey{})
+			deliver(&vss.PublicKey{})
 			stopRecv(in) // recoverSign has returned …
 			in.cancel()  // … and handleQuery's deferred cancel ran
 			if in.cancAt < 0 {
 				in.cancAt = i
 				in.gotAtCancel = len(in.got)
 			}
+		case 'f':
+			in := get(e.h)
+			deliver(&vss.PublicKey{})
+			stopRecv(in) // recoverSign has returned; the context is still live
+			if in.cancAt < 0 {
+				in.cancAt = i
+				in.gotAtCancel = len(in.got)
+				finished = append(finished, in)
+			}
 		}
 	}
 	// sentinel: once the loop takes it, every scripted event has been processed completely
-	pd.Deliver([]byte("peer"), &vss.PublicKey{})
+	deliver(&vss.PublicKey{})
 	for _, in := range insts {
 		stopRecv(in)
 		in.cancel()
@@ -302,7 +346,7 @@ func classify(evs []ev) (string, bool) {
 			na++
 		case 'r':
 			nr++
-		case 'c':
+		case 'c', 'f':
 			nc++
 		}
 	}
@@ -339,11 +383,22 @@ func exec(line string) (res h.Result) {
 		return
 	}
 	ch := make(chan map[int]*inst, 1)
+	before := atomic.LoadInt32(&windowHits)
 	go func() { ch <- run(rids, evs) }()
 	select {
 	case insts := <-ch:
 		res.Impl = render(insts)
 		res.Oracle = oracle(rids, evs, insts)
+		for _, e := range evs {
+			if e.kind == 'f' {
+				if atomic.LoadInt32(&windowHits) != before {
+					res.Class = "completion-window: loop seen waiting until the cancel; " + res.Class
+				} else {
+					res.Class = "completion-window: not hit; " + res.Class
+				}
+				break
+			}
+		}
 	case <-time.After(5 * time.Second):
 		// the loop did not take an input within 5 s: it is stuck in a send nobody will receive
 		res.Impl = "stuck"
@@ -426,6 +481,12 @@ func gen(tier string, rng *h.Rng, emit func(string)) {
 			{2, 2, []string{"r0.0", "c0", "r3.0", "c3", "r1.1", "x"}, 6},
 			{0, 3, all6, 6}, {1, 3, all6, 7}, {2, 3, all6, 6},
 		}
+	}
+	// the completion window: stage gone (f) before the context is cancelled (c)
+	if thorough {
+		spaces = append(spaces, space{3, 2, []string{"r0.0", "f0", "c0", "r1.1"}, 7})
+	} else {
+		spaces = append(spaces, space{2, 2, []string{"r0.0", "f0", "r1.1"}, 5})
 	}
 	n := 0
 	for _, sp := range spaces {
